@@ -51,17 +51,21 @@ def histories(max_len, docs=("A", "B")):
     return out
 
 
-def materialise(h):
+def materialise(h, broken_b=False):
+    """broken_b: document B's texts do not parse (A's dependency analysis then publishes B's parse errors while holding the
+    read guard); B itself is then not judged, A is."""
     evs = []
     for e in h:
         t = "" if e["op"] == "close" else text(e["doc"], e["ver"], imports_b=(e["doc"] == "A"))
+        if broken_b and e["doc"] == "B" and t:
+            t = t + "def broken(:\n"
         evs.append({**e, "text": t})
     return evs
 
 
 def _run(args):
     chunk, bound, cap = args
-    inp = "\n".join(json.dumps({"id": i, "history": materialise(h)}) for i, h in chunk) + "\n"
+    inp = "\n".join(json.dumps({"id": i, "history": materialise(h, br)}) for i, (h, br) in chunk) + "\n"
     p = subprocess.run([common.IVH, "lspx", "--dir", DIR, "--bound", str(bound), "--cap", str(cap)], input=inp, capture_output=True, text=True, encoding="utf-8")
     if p.returncode != 0:
         raise common.MachineryError(f"ivh lspx failed ({p.returncode}): {p.stderr[-500:]}")
@@ -99,10 +103,12 @@ def run(tier):
     prepare_dir()
     out = common.Outcome("C18", tier)
     thorough = tier == "thorough"
-    max_len = 4 if thorough else 3
-    bound = 3 if thorough else 2
-    cap = 400_000 if thorough else 60_000
-    hs = list(enumerate(histories(max_len)))
+    max_len = 5 if thorough else 4
+    bound = 4 if thorough else 3
+    cap = 300_000 if thorough else 60_000
+    base = histories(max_len)
+    # the same histories with a B whose texts do not parse (only those that touch B and A)
+    hs = list(enumerate([(h, False) for h in base] + [(h, True) for h in base if {e["doc"] for e in h} == {"A", "B"}]))
     n = common.NCPU
     chunks = [hs[i::n] for i in range(n)]
     with Pool(n) as pool:
@@ -122,21 +128,21 @@ def run(tier):
             if r["capped"]:
                 capped.append(r["id"])
             if r.get("sample") and len(samples) < 3:
-                samples.append({"history": by_id[r["id"]], **r["sample"]})
+                samples.append({"history": by_id[r["id"]][0], "broken_b": by_id[r["id"]][1], **r["sample"]})
             for v in r["violations"]:
                 if v["kind"].startswith("MACHINERY"):
                     raise common.MachineryError(v["kind"] + " " + json.dumps(v)[:300])
-                hist = by_id[r["id"]]
+                hist, br = by_id[r["id"]]
                 key = classify(v)
-                out.fail(key, {"history": materialise(hist), "mode": v.get("mode"), "schedule": v.get("schedule"), "deviations": v.get("deviations"), "trace": v.get("trace"), "kind": v["kind"], "observation": v.get("observation")})
+                out.fail(key, {"history": materialise(hist, br), "mode": v.get("mode"), "schedule": v.get("schedule"), "deviations": v.get("deviations"), "trace": v.get("trace"), "kind": v["kind"], "observation": v.get("observation")})
     cov = {
         "states": execs,
         "transitions": trans,
         "traces_validated_against_impl": execs,
-        "samples": samples or [{"history": hs[0][1]}],
+        "samples": samples or [{"history": hs[0][1][0]}],
         "evaluations": execs,
         "distinct_nontrivial": nontriv,
-        "rule": f"all {len(hs)} protocol-legal open/change/close histories of length <= {max_len} over documents A (imports B) and B; for each, every schedule of "
+        "rule": f"all {len(base)} protocol-legal open/change/close histories of length <= {max_len} over documents A (imports B) and B, and again with a B that does not parse ({len(hs)} in total); for each, every schedule of "
         f"arrive / poll(woken handler) / drain steps with <= {bound} deviations from the eager-client and from the lazy-client default schedule, each run to quiescence on a fresh "
         "real LspService; states = complete executions (each is a distinct schedule), transitions = arrive/poll/drain steps executed; non-trivial = schedules containing at least "
         "one pending poll (a handler actually suspended at an await point)",
